@@ -132,7 +132,7 @@ func checkC05(r *Run) {
 	}
 	if shape == 5 {
 		fresh := 0
-		changelog = GenChangelog(t.Block(8*2*maxRows+10), ChangelogCfg{MaxSteps: 2 * maxRows, Retractions: true, Dups: true,
+		changelog = GenChangelog(t.Block(stepBlock*2*maxRows+10), ChangelogCfg{MaxSteps: 2 * maxRows, Retractions: true, Dups: true,
 			Row: func(t *Tape, i, sec int) []octosql.Value {
 				fresh++
 				k := func() octosql.Value {
